@@ -27,6 +27,21 @@ def render_clu(names, rows, width, blank_extra):
         out.append(''); out += [''] * blank_extra
     return '\n'.join(out) + '\n'
 
+def render_clu_grouped(names, rows, width, counts):
+    """Clustal body as some writers lay it out: the columns of a block in groups of ten separated by blanks, optionally followed
+    by the running residue count (the reader ignores blanks and digits inside the residue part: C04_clustal_any_layout)"""
+    mx = max(len(n) for n in names)
+    out = ['CLUSTAL W (1.83) multiple sequence alignment', '', '']
+    done = [0] * len(rows)
+    for b in range(0, len(rows[0]), width):
+        for k, (n, r) in enumerate(zip(names, rows)):
+            seg = r[b:b + width]
+            done[k] += sum(1 for ch in seg if ch.isalpha())
+            out.append(n + ' ' * (mx + 6 - len(n)) + ' '.join(seg[i:i + 10] for i in range(0, len(seg), 10)) + ((' %d' % done[k]) if counts else ''))
+        out.append(' ' * (mx + 6) + ' '.join(('*' * 10,) * (min(width, len(rows[0]) - b) // 10)))
+        out.append('')
+    return '\n'.join(out) + '\n'
+
 def render_msf(names, rows, width, protein):
     mx = max(len(n) for n in names)
     out = ['!!%s_MULTIPLE_ALIGNMENT 1.0' % ('AA' if protein else 'NA'), '', ' x.msf  MSF: %d  Type: %s  January 01, 2000 00:00  Check: 0  ..' % (len(rows[0]), 'P' if protein else 'N'), '']
@@ -79,6 +94,8 @@ def run(ck):
             rows = gapify(rng, seqs, 0.5)
             pres.append(('clustal-60', [render_clu(names, rows, 60, 0)]))
             pres.append(('clustal-23', [render_clu(names, rows, 23, 2)]))
+            pres.append(('clustal-grouped-by-10', [render_clu_grouped(names, rows, 60, False)]))
+            pres.append(('clustal-grouped-with-counts', [render_clu_grouped(names, rows, 50, True)]))
             pres.append(('msf-50', [render_msf(names, rows, 50, kind == 'protein')]))
             if len(seqs) >= 4:
                 cut = rng.range(2, len(seqs) - 2) if len(seqs) > 4 else 2
